@@ -52,7 +52,10 @@ theorem close_guard (c : Cur) (o : Nat) (h : c.orig = some o) :
       else .err (.cursorWindowError c.lim c.pos) := by
   unfold Cur.closeWindow cur_close_ok
   rw [h]
-  by_cases hp : c.pos = c.lim <;> simp [hp]
+  by_cases hp : c.pos = c.lim
+  · simp [hp]
+  · have hp' : ¬ c.lim = c.pos := fun h => hp h.symm
+    simp [hp, hp']
 
 /-- `r_be!`: the fixed-width reads test `len() >= size_of::<T>()` -/
 theorem rbe_guard (msg : Bytes) (c : Cur) (n : Nat) :
